@@ -328,6 +328,10 @@ def check_filter_call_sites(ctx: Ctx, rep: Report, wm: WalkModel, r1: str, r2: s
                 for pname, arg in bind_call_args(n, sf.params, skip_self=sf.cls is not None).items():
                     if isinstance(arg, ast.Name) and arg.id == seen_local:
                         names_here.add(pname)
+        for _ in range(3):  # plain copies are the same set (the parameter slot of a spliced helper, a local alias)
+            for n in own_nodes(sf.node):
+                if isinstance(n, ast.Assign) and len(n.targets) == 1 and isinstance(n.targets[0], ast.Name) and isinstance(n.value, ast.Name) and n.value.id in names_here:
+                    names_here.add(n.targets[0].id)
         for n in own_nodes(sf.node):
             if isinstance(n, ast.Call) and isinstance(n.func, ast.Attribute) and isinstance(n.func.value, ast.Name) and n.func.value.id in names_here and n.func.attr in ("discard", "remove", "clear", "pop", "difference_update", "intersection_update", "symmetric_difference_update"):
                 shrink.append(f"{sf.qualname}:{n.lineno} {norm(n)[:50]}")
@@ -351,7 +355,31 @@ def is_order_preserving_of(expr: ast.AST, param: str) -> bool:
         return expr.id == param
     if isinstance(expr, ast.Call) and isinstance(expr.func, ast.Name) and expr.func.id in ORDER_PRESERVING and len(expr.args) == 1 and not expr.keywords:
         return is_order_preserving_of(expr.args[0], param)
+    if isinstance(expr, (ast.List, ast.Tuple)) and len(expr.elts) == 1 and isinstance(expr.elts[0], ast.Starred):
+        return is_order_preserving_of(expr.elts[0].value, param)  # [*xs]
+    if isinstance(expr, ast.IfExp):
+        return is_order_preserving_of(expr.body, param) and is_order_preserving_of(expr.orelse, param)
     return False
+
+
+def none_branches(cfg, name: str):
+    """(branch nodes taken when *name* is None, branch nodes taken when it is not) over the `name is [not] None` tests."""
+    is_none, not_none = [], []
+    for n in cfg.nodes:
+        if n.kind != "test" or not isinstance(n.ast, ast.Compare) or len(n.ast.ops) != 1:
+            continue
+        cmp_ = n.ast
+        if not (isinstance(cmp_.left, ast.Name) and cmp_.left.id == name and isinstance(cmp_.comparators[0], ast.Constant) and cmp_.comparators[0].value is None):
+            continue
+        if not isinstance(cmp_.ops[0], (ast.Is, ast.IsNot, ast.Eq, ast.NotEq)):
+            continue
+        positive = isinstance(cmp_.ops[0], (ast.Is, ast.Eq))
+        for nid, lab in cfg.succ[n.id]:
+            if lab is True:
+                (is_none if positive else not_none).append(cfg.nodes[nid])
+            elif lab is False:
+                (not_none if positive else is_none).append(cfg.nodes[nid])
+    return is_none, not_none
 
 
 # ---------------------------------------------------------------- R3
@@ -382,10 +410,13 @@ def check_loop(ctx: Ctx, rep: Report, wm: WalkModel, r3: str = "C01-R3", r6: str
         st = stmt_of(fc)
         res = st.targets[0].id if isinstance(st, ast.Assign) and isinstance(st.targets[0], ast.Name) else None
         targets = [cfg.exit] + ([wtest] if wtest is not None else [])
-        ok = fnode is not None and res is not None and cfg.must_pass(fnode, targets, loop_nodes)
+        # a fetcher returns a list (C01-R1): the `<result> is None` branch is not a path of a successful fetch (a local
+        # helper reports a refused fetch that way)
+        infeasible = none_branches(cfg, res)[0] if res is not None else []
+        ok = fnode is not None and res is not None and cfg.must_pass(fnode, targets, loop_nodes + infeasible)
         wit = None
         if not ok and fnode is not None:
-            path = cfg.witness_path(fnode, targets, avoid=loop_nodes)
+            path = cfg.witness_path(fnode, targets, avoid=loop_nodes + infeasible)
             wit = [repr(n) for n in path] if path else None
         rep.check(ok, r3, w.site(fc), "after a successful fetch every path to the next round / the end passes the loop that yields the filtered batch", key=f"{w.key}|batch-dropped", witness=wit)
     # provenance chain: filter(grouped) <- group(fetch result)
@@ -407,6 +438,11 @@ def check_loop(ctx: Ctx, rep: Report, wm: WalkModel, r3: str = "C01-R3", r6: str
                 if isinstance(gc, ast.Call):
                     first = gc.args[0]
                     frd = reaching_defs(cfg, first.id, d) if isinstance(first, ast.Name) else []
+                    if isinstance(first, ast.Name):
+                        # `<result> = None` (the refused-fetch marker of a local helper) never reaches the regrouping
+                        # when every path from it runs into the not-None side of a `<result> is None` test
+                        not_none = none_branches(cfg, first.id)[1]
+                        frd = [x for x in frd if not (isinstance(assigned_value(x), ast.Constant) and assigned_value(x).value is None and d.id not in cfg.reachable(x, avoid=not_none))]
                     if not frd or not all(isinstance(assigned_value(x), ast.Await) and assigned_value(x).value in wm.fetch_calls for x in frd):
                         ok = False
         rep.check(ok, r3, w.site(call), "what is filtered and yielded is the regrouping of the batch just fetched", key=f"{w.key}|stale-batch")
